@@ -294,7 +294,10 @@ class StatementLineageHolder(SubQueryLineageHolder, ColumnLineageMixin):
         }
 
     def add_rename(self, src: Table, tgt: Table) -> None:
-        self.graph.add_edge(src, tgt, type=EdgeType.RENAME)
+        # keep the order in which the renames are written, a set of edges doesn't have any
+        self.graph.add_edge(
+            src, tgt, type=EdgeType.RENAME, **{EdgeTag.INDEX: len(self.rename)}
+        )
 
     @staticmethod
     def of(holder: SubQueryLineageHolder) -> "StatementLineageHolder":
@@ -391,7 +394,11 @@ class SQLLineageHolder(ColumnLineageMixin):
                     if g.has_node(table) and g.degree[table] == 0:
                         g.remove_node(table)
             elif holder.rename:
-                for table_old, table_new in holder.rename:
+                # multiple renames in one statement take effect one after another in the order written
+                for table_old, table_new in sorted(
+                    holder.rename,
+                    key=lambda r: holder.graph.edges[r].get(EdgeTag.INDEX, 0),
+                ):
                     g = nx.relabel_nodes(g, {table_old: table_new})
                     if g.has_edge(table_new, table_new):
                         g.remove_edge(table_new, table_new)
